@@ -79,6 +79,11 @@ def check(run):
     for i, b in enumerate(behs):
         run.note_case("reapers:" + json.dumps(b["steps"], sort_keys=True), bool(per[i]["deletes"]))
     run.validate("Reapers_Trace", "Reapers_Trace.cfg", files, par=4 if run.tier == "quick" else 8)
+    drift, examples = rc.model_drift(behs, per)
+    run.extra_cov["model_vs_code_per_reconcile"] = drift
+    bad = {k: v for k, v in drift.items() if not k.endswith((":agree", ":agree-delete"))}
+    if bad:
+        run.notes.append("MODEL-DRIFT (diagnostic, never a verdict): %s; e.g. %s" % (bad, examples[:2]))
 
     # ---- liveness through the lifecycle driver (G_C16_Liveness in Lifecycle_Trace.tla)
     lbehs = lifecycle_liveness_behaviours(run, rng)
